@@ -5,7 +5,7 @@ From Coq Require Import ZArith Bool List.
 From Flocq Require Import Core.
 From Flocq.IEEE754 Require Import BinarySingleNaN Binary Bits.
 Import ListNotations.
-Open Scope Z_scope.
+Local Open Scope Z_scope.
 
 Definition f64 := Z.   (* bit pattern *)
 
